@@ -76,7 +76,7 @@ def _step(nas, x, which, k):
     for p in nas.parameters():
         p.grad = None
     torch.manual_seed(500 + k)
-    loss = nas(x).sum() * 0.1 + 1e-3 * (nas.get_cost('a') + 1e-2 * nas.get_cost('b'))
+    loss = torch.tanh(nas(x)).sum() * 0.1 + 1e-3 * (nas.get_cost('a') + 1e-2 * nas.get_cost('b'))
     grads = torch.autograd.grad(loss, [p for p in ps if p.requires_grad], allow_unused=True)
     with torch.no_grad():
         for p, g in zip([p for p in ps if p.requires_grad], grads):
@@ -145,7 +145,7 @@ def _observe(nas, x, trainable_names, with_export=True):
     y = nas(x)
     obs['out'] = F.tensor_hash(y)
     with torch.no_grad():
-        obs['cost'] = [round(float(nas.get_cost('a')), 3), round(float(nas.get_cost('b')), 3)]
+        obs['cost'] = [F.canon(float(nas.get_cost('a'))), F.canon(float(nas.get_cost('b')))]
     torch.manual_seed(778)
     obs['summary'] = F.canon(nas.summary())
     if with_export:
@@ -160,7 +160,7 @@ def _observe(nas, x, trainable_names, with_export=True):
     named = dict(nas.named_parameters())
     ps = [named[n] for n in trainable_names if n in named]
     torch.manual_seed(779)
-    loss = nas(x).sum() * 0.1 + 1e-3 * (nas.get_cost('a') + 1e-2 * nas.get_cost('b'))
+    loss = torch.tanh(nas(x)).sum() * 0.1 + 1e-3 * (nas.get_cost('a') + 1e-2 * nas.get_cost('b'))
     grads = torch.autograd.grad(loss, ps, allow_unused=True)
     with torch.no_grad():
         for p, g in zip(ps, grads):
@@ -170,7 +170,7 @@ def _observe(nas, x, trainable_names, with_export=True):
     y2 = nas(x)
     obs['out_after_step'] = F.tensor_hash(y2)
     with torch.no_grad():
-        obs['cost_after_step'] = [round(float(nas.get_cost('a')), 3), round(float(nas.get_cost('b')), 3)]
+        obs['cost_after_step'] = [F.canon(float(nas.get_cost('a'))), F.canon(float(nas.get_cost('b')))]
     obs['sd_after_step'] = F.sd_hash(nas)
     return obs
 
@@ -223,7 +223,7 @@ def _run_saved(case, seed):
                 with torch.no_grad():
                     torch.manual_seed(32)
                     y = m(x)
-                    obs.append({'out': F.tensor_hash(y), 'cost': [round(float(m.get_cost('a')), 3), round(float(m.get_cost('b')), 3)],
+                    obs.append({'out': F.tensor_hash(y), 'cost': [F.canon(float(m.get_cost('a'))), F.canon(float(m.get_cost('b')))],
                                 'summary': F.canon(m.summary()), 'sampled': F.canon(m.nas_parameters_summary(post_sampling=True))})
             diffs = [k for k in obs[0] if obs[0][k] != obs[1][k]]
             if missing or unexpected:
